@@ -17,16 +17,25 @@ from .sched import PassShape, parse_cap, parse_resv, parse_free
 # --------------------------------------------------------------------------------------------------------------------
 def jump_bound(ctx, o, ps: PassShape, pt):
     """recursive calls on dependencies (not children) pass the project bound"""
-    if pt is None:
-        o.fail("prerequisite term not found")
-        return
     n = 0
     for c in ps.pass_calls():
         ci = ps.call_iter(c) if hasattr(ps, 'call_iter') else None
         if ci is None:
             fo = ps.call_loop(c)
             ci = (fo, fo.iter) if fo is not None else None
-        if ci is None or not same(ci[1], pt['iter']):
+        if ci is None:
+            continue
+        if pt is not None:
+            is_dep = same(ci[1], pt['iter'])
+        else:
+            # no `max/min([x.end ..] + [bound])` term (e.g. the bound is accumulated inside the recursion loop): recognise the
+            # dependency recursion by what its collection ranges over
+            try:
+                srcs_ = ps.collection_sources(ci[1], ps.cfg.node_of(ci[0]))
+            except Exception:
+                srcs_ = None
+            is_dep = bool(srcs_ and srcs_['own'] and not srcs_['unknown'])
+        if not is_dep:
             continue
         n += 1
         b = ps.ex.expand(c.args[1], ps.cfg.node_containing(c)) if len(c.args) > 1 else None
@@ -38,6 +47,9 @@ def jump_bound(ctx, o, ps: PassShape, pt):
         else:
             o.refute(ps.f, c, c, f"a task reached through a dependency link is scheduled with bound `{src(b) if b is not None else '?'}`; "
                                  f"expected the project bound")
+    if n == 0 and pt is None:
+        o.fail("prerequisite term not found")
+        return
     if n == 0:
         # recognised wrong shape: the recursion ranges over the task's OWN dependencies only, while the bound term also reads
         # the dependencies inherited from the ancestors
@@ -240,7 +252,20 @@ def encoding(ctx, o, ps: PassShape):
                     isinstance(vv.left, ast.Call) and isinstance(vv.left.func, ast.Attribute) and \
                     unmangle(vv.left.func.attr) == prog.func(S['search']).name:
                 v_inline.append(st)
+        cond_extra = []
         if len(ok) + len(v_inline) == 1 and len(augs) == len(ok):
+            the = (ok + v_inline)[0]
+            cond_extra = [x for x in ps.stores('end') if x[0] is the][0][3]['other']
+        if cond_extra:
+            def about_work(t):
+                return any((isinstance(x, ast.Attribute) and x.attr in ('estimate', 'spent')) for x in ast.walk(t))
+            if all(isinstance(t, (ast.Compare, ast.BoolOp, ast.UnaryOp)) or about_work(t) for t, _ in cond_extra):
+                o.refute(ps.f, the, the, "the end of a leaf is taken from the availability search (+ 1 day) only when " +
+                         ', '.join(facts.cond_texts(cond_extra))[:100] + ": otherwise the raw bound is kept as end, which is not the midnight "
+                         "following a day on which the resource has free capacity (end does not encode the capacity of its day)")
+            else:
+                o.undecided(ps.f, the, the, "the search result + 1 day is stored under " + ', '.join(facts.cond_texts(cond_extra))[:100])
+        elif len(ok) + len(v_inline) == 1 and len(augs) == len(ok):
             o.site(ps.f, (ok + v_inline)[0], "end = search result + 1 day (midnight following the day)")
         else:
             o.refute(ps.f, (augs or [ps.f.node])[0], 'end += 1 day', "the computed end is not the search result plus exactly one day")
@@ -312,9 +337,22 @@ def encoding(ctx, o, ps: PassShape):
         vnote = ''
         if capinfo is None and isinstance(V, ast.Name):
             defs = flf.defs_of(V.id)
-            capdefs = [d for d in defs if d.kind == 'assign' and parse_cap(d.value)]
+
+            def cap_read(d, depth=0):
+                """the definition that reads the capacity, following plain single-definition aliases (`cap = cap_of_day`)"""
+                if d.kind != 'assign' or d.value is None:
+                    return None
+                if parse_cap(d.value):
+                    return d
+                if isinstance(d.value, ast.Name) and depth < 3:
+                    ds = flf.defs_of(d.value.id)
+                    if len(ds) == 1:
+                        return cap_read(ds[0], depth + 1)
+                return None
+            capdefs = [d for d in defs if cap_read(d) is not None]
             other = [d for d in defs if d not in capdefs and not (d.kind == 'assign' and isinstance(d.value, ast.Constant))]
             if len(capdefs) == 1 and not other:
+                capdefs = [cap_read(capdefs[0])]
                 capinfo = parse_cap(capdefs[0].value)
                 cdn = capdefs[0].node
                 if not flf.no_def_between(attr_or_name(dvar), cdn, rnode, {cfg.loop_entry_branch(loop).id} if loop is not None else None) \
@@ -551,6 +589,20 @@ def conservation(ctx, o, S):
         o.refute(fill, inner, inner, "the reservation is inside a nested loop: more than one booking per day")
         return
     defs = [d for d in fl.defs_of(left_p) if d.kind != 'param' and not (left_p != param_p and d.kind == 'assign')]
+    guard_p = left_p
+    # per-iteration working copy (a one-day booking helper spliced into the loop): `w = left; w -= reserve(..); left = w`
+    # - the loop variable's only update is the copy-back, the working copy starts every iteration from the loop variable
+    if len(defs) == 1 and defs[0].kind == 'assign' and isinstance(defs[0].value, ast.Name) and defs[0].value.id != left_p \
+            and defs[0].node is not None and any(x is defs[0].stmt for s_ in loop.body for x in ast.walk(s_)):
+        w = defs[0].value.id
+        wdefs = fl.defs_of(w)
+        starts = [d for d in wdefs if d.kind == 'assign' and isinstance(d.value, ast.Name) and d.value.id == left_p and d.node is not None
+                  and any(x is d.stmt for s_ in loop.body for x in ast.walk(s_))]
+        rn_ = cfg.node_containing(c)
+        if len(starts) == 1 and cfg.dominates(starts[0].node, rn_) and cfg.can_reach(rn_, defs[0].node) and \
+                cfg.dominates(starts[0].node, defs[0].node):
+            left_p = w
+            defs = [d for d in wdefs if d is not starts[0]]
 
     def is_booked(d):
         """`left -= <ledger>.reserve(..)`, `left -= booked` with booked = <that call>, or `left = left - <either>`"""
@@ -578,7 +630,7 @@ def conservation(ctx, o, S):
     ex = Expander(prog, fill, ctx.typer)
     amt = ex.expand(c.args[3])
     margs = facts.flatten_lattice(amt, 'min') or []
-    if not any(isinstance(a, ast.Name) and a.id == left_p for a in margs):
+    if not any(isinstance(a, ast.Name) and a.id in (left_p, guard_p) for a in margs):
         o.refute(fill, c, c.args[3], f"booked amount `{src(amt)[:80]}` is not bounded by the remaining work `{left_p}`")
         return
     # day steps per iteration
@@ -618,7 +670,7 @@ def conservation(ctx, o, S):
     zero = False
     for n in walk_no_nested(fill.node):
         if isinstance(n, ast.If) and any(match(f"{v} == 0", n.test) or match(f"{v} <= 0", n.test) or match(f"not {v}", n.test)
-                                         for v in {left_p, param_p}):
+                                         for v in {left_p, param_p, guard_p}):
             if any(isinstance(x, ast.Return) for x in n.body) and cfg.dominates(cfg.node_of(n), cfg.node_of(loop)):
                 zero = True
     if zero:
@@ -683,3 +735,71 @@ def ledger_fresh(ctx, o, S):
             o.refute(calc, c, c.args[usage_idx], f"the ledger handed to the pass is scheduler state (`{src(led)}`): bookings of an earlier calc() stay booked")
         else:
             o.undecided(calc, c, c.args[usage_idx], f"the ledger handed to the pass is `{src(led)[:60]}`, not one constructed by this call")
+
+
+# --------------------------------------------------------------------------------------------------------------------
+def scheduled_once(ctx, o, ps: PassShape):
+    """a task is scheduled (and its work booked) at most once per calc: either the pass itself returns early for a task in the
+    memo, or EVERY call of the pass (recursive ones and the root loop of calc) is guarded by `x.id not in memo`; and the pass
+    records the task in the memo"""
+    S, prog = ps.S, ctx.prog
+    memo = ps.memo
+    if ps.memo_on_self or getattr(ps, 'memo_on_task', None) or memo not in ps.f.params:
+        o.site(ps.f, ps.f.node, f"memo `{memo}` is not a parameter (its scope is another obligation's subject)")
+        return
+    midx = ps.f.params.index(memo) - 1
+    sc = ps.memo_shortcut() if hasattr(ps, 'memo_shortcut') else None
+    entry_ok = False
+    if sc and sc[0] in ('return', 'wrap'):
+        entry_ok = True
+        o.site(ps.f, sc[1], "the pass skips a task that is already in the memo")
+    elif sc and sc[0] == 'late':
+        # a memo test that is not the first statement: fine when it still precedes every booking, recursion and date store
+        tn = ps.cfg.node_containing(sc[1])
+        fill = prog.func(S['fill'])
+        later = [c for c in facts.calls_named(ps.f, fill.name)] + ps.pass_calls()
+        if tn is not None and later and all(ps.cfg.dominates(tn, ps.cfg.node_containing(c)) for c in later):
+            entry_ok = True
+            o.site(ps.f, sc[1], "memo test precedes every booking and recursion")
+    if not entry_ok:
+        calc = prog.func(S['calc'])
+        n_un = 0
+        for f2, c in sched.pass_call_sites(ctx, S):
+            if len(c.args) <= midx or not c.args:
+                o.undecided(f2, c, c, "pass call without positional task / memo arguments")
+                continue
+            targ, marg = c.args[0], c.args[midx]
+            guarded = False
+            ex2 = Expander(prog, f2, ctx.typer)
+            cn2 = cfg_of(f2).node_containing(c)
+            targ_x, marg_x = ex2.expand(targ, cn2), ex2.expand(marg, cn2)
+            for expand in (False, True):
+                for t, pol in facts.node_conditions(prog, f2, c, ctx.typer, expand=expand):
+                    mm = facts.cond_is(t, pol, "$x.id in $m", want=False)
+                    if mm and (same(mm['x'], targ) or same(mm['x'], targ_x)) and (same(mm['m'], marg) or same(mm['m'], marg_x)):
+                        guarded = True
+            if guarded:
+                o.site(f2, c, "call guarded by `task.id not in memo`")
+            else:
+                n_un += 1
+                o.refute(f2, c, c, f"the pass has no `if task.id in {memo}: return` at its entry and this call is not guarded by "
+                                   f"`{src(targ)}.id not in {src(marg)}`: a task reached before (through a dependency link or as a child) is scheduled "
+                                   f"again and its remaining work is reserved a second time")
+    # the memo is filled
+    grows = [n for n in walk_no_nested(ps.f.node) if
+             (isinstance(n, ast.Call) and isinstance(n.func, ast.Attribute) and isinstance(n.func.value, ast.Name) and n.func.value.id == memo
+              and n.func.attr in ('append', 'add', 'extend', 'update', 'insert')) or
+             (isinstance(n, ast.AugAssign) and isinstance(n.target, ast.Name) and n.target.id == memo)]
+    if grows:
+        if any(any(match(f"{ps.task}.id", x) for x in ast.walk(g)) for g in grows):
+            o.site(ps.f, grows[0], f"{memo} records task.id")
+        else:
+            o.undecided(ps.f, grows[0], grows[0], f"the memo `{memo}` is grown by something else than task.id")
+    else:
+        handed = [c for c in walk_no_nested(ps.f.node) if isinstance(c, ast.Call) and any(isinstance(a, ast.Name) and a.id == memo for a in c.args)
+                  and c not in ps.pass_calls()]
+        if handed:
+            o.undecided(ps.f, handed[0], handed[0], f"the memo `{memo}` is handed to `{src(handed[0].func)}`; cannot tell whether the task is recorded")
+        else:
+            o.refute(ps.f, ps.f.node, f"{memo} never filled", f"the pass never records the task in `{memo}`: a task reached twice (link and hierarchy) is scheduled "
+                                                               f"and booked twice")
